@@ -1,7 +1,9 @@
 package rules
 
 import (
+	"regexp"
 	"fmt"
+	"go/constant"
 	"go/token"
 	"go/types"
 	"strings"
@@ -581,12 +583,13 @@ func checkCover(e *Env, p *load.Program) {
 	// insertAfter: one insertion at index+1, then updateIndices(index+1), returns index+1
 	res := origin.NewResolver()
 	idxParam := ia.Params[1]
+	// offset of a position expression from the index parameter: index + k (any nesting of +/- constants)
+	offset := func(v ssa.Value) (int64, bool) {
+		a := affineOf(v, nil, func(x ssa.Value) bool { return x == ssa.Value(idxParam) }, 0)
+		return a.c, a.ok && a.a == 0 && a.l == 1
+	}
 	isPlus1 := func(v ssa.Value) bool {
-		bo, ok := v.(*ssa.BinOp)
-		if !ok || bo.Op != token.ADD || bo.X != ssa.Value(idxParam) {
-			return false
-		}
-		k, ok := flow.ConstInt(bo.Y)
+		k, ok := offset(v)
 		return ok && k == 1
 	}
 	var pos1 ssa.Value
@@ -618,17 +621,57 @@ func checkCover(e *Env, p *load.Program) {
 			}
 		}
 	}
+	// recognised ways to open one slot at X = index+1 (each leaves list[0:X] in place, moves list[X:] up by one, and
+	// leaves position X to be overwritten by the put):
+	//   A  list = append(list[:X+1], list[X:]...)
+	//   B  list = append(list, <zero>); copy(list[X+1:], list[X:])
+	isList := func(v ssa.Value, at ssa.Instruction) bool {
+		return strings.HasSuffix(res.Of(v, nil, at).String(), ".instructions")
+	}
 	okGrow := false
+	var opened ssa.Instruction // the instruction after which the slot exists
 	if grow != nil {
 		s1, ok1 := grow.Call.Args[0].(*ssa.Slice)
 		s2, ok2 := grow.Call.Args[1].(*ssa.Slice)
-		if ok1 && ok2 && s1.Low == nil && s1.High != nil && s2.Low != nil && s2.High == nil {
-			hi, okh := s1.High.(*ssa.BinOp)
-			if okh && hi.Op == token.ADD && hi.X == s2.Low && isPlus1(s2.Low) {
-				if k, ok := flow.ConstInt(hi.Y); ok && k == 1 {
-					o1 := res.Of(s1.X, nil, grow).String()
-					o2 := res.Of(s2.X, nil, grow).String()
-					okGrow = o1 == o2 && strings.HasSuffix(o1, ".instructions")
+		if ok1 && ok2 && s1.Low == nil && s1.High != nil && s2.Low != nil && s2.High == nil && s1.Max == nil && s2.Max == nil {
+			// idiom A
+			h, okh := offset(s1.High)
+			l, okl := offset(s2.Low)
+			if okh && okl && l == 1 && h == 2 && isList(s1.X, grow) && isList(s2.X, grow) {
+				okGrow, opened = true, grow
+			}
+		} else if ld, ok := grow.Call.Args[0].(*ssa.UnOp); ok && isList(ld, grow) {
+			// idiom B: one zero element appended, then the tail moved up by copy
+			if vals := appendedValues(grow); len(vals) == 1 {
+				if k, isK := vals[0].(*ssa.Const); isK && k.Value == nil {
+					var growStore ssa.Instruction
+					for _, ref := range *grow.Referrers() {
+						if st, ok := ref.(*ssa.Store); ok {
+							growStore = st
+						}
+					}
+					for _, c := range flow.Calls(ia) {
+						cp, ok := c.(*ssa.Call)
+						if !ok || growStore == nil {
+							continue
+						}
+						if bi, ok := cp.Call.Value.(*ssa.Builtin); !ok || bi.Name() != "copy" {
+							continue
+						}
+						d, okd := cp.Call.Args[0].(*ssa.Slice)
+						sr, oks := cp.Call.Args[1].(*ssa.Slice)
+						if !okd || !oks || d.Low == nil || sr.Low == nil || d.High != nil || sr.High != nil || d.Max != nil || sr.Max != nil {
+							continue
+						}
+						dl, ok1 := offset(d.Low)
+						sl, ok2 := offset(sr.Low)
+						dx, _ := d.X.(ssa.Instruction)
+						sx, _ := sr.X.(ssa.Instruction)
+						if ok1 && ok2 && dl == 2 && sl == 1 && isList(d.X, cp) && isList(sr.X, cp) && dx != nil && sx != nil &&
+							flow.InstrDominates(growStore, dx) && flow.InstrDominates(growStore, sx) {
+							okGrow, opened = true, cp
+						}
+					}
 				}
 			}
 		}
@@ -636,7 +679,7 @@ func checkCover(e *Env, p *load.Program) {
 	r.Check(okGrow, "E2.cover", "Program.insertAfter/one-slot", p.Pos(ia.Pos()), "the list grows by exactly one slot at index+1 (append(list[:X+1], list[X:]...), X = index+1)", "insertAfter does not open exactly one slot at index+1")
 	okPut := false
 	if put != nil && grow != nil {
-		if iaddr, ok := put.Addr.(*ssa.IndexAddr); ok && isPlus1(iaddr.Index) && flow.InstrDominates(grow, put) {
+		if iaddr, ok := put.Addr.(*ssa.IndexAddr); ok && isPlus1(iaddr.Index) && opened != nil && flow.InstrDominates(opened, put) {
 			okPut = true
 		}
 	}
@@ -685,6 +728,8 @@ func checkPatcherDiscipline(e *Env, p *load.Program) {
 	rl := p.Func(load.PkgRoot, "Program.resolveLabel")
 	ia := p.Func(load.PkgRoot, "Program.insertAfter")
 	cs := p.Func(load.PkgRoot, "Program.computeSkipN")
+	ui := p.Func(load.PkgRoot, "Program.updateIndices")
+	ci := p.Func(load.PkgRoot, "Program.currentIndex")
 	if asm == nil || ia == nil || cs == nil {
 		r.Unknown("E2.order", "Program.Assemble", "", "patcher functions not found")
 		return
@@ -707,24 +752,29 @@ func checkPatcherDiscipline(e *Env, p *load.Program) {
 	}
 	r.Floor("E2.order(insertAfter call sites)", nAnchor, 1)
 
-	// ---- the loop over the jump list in Program.Assemble runs from the last record to the first
+	// ---- the loop over the jump list in Program.Assemble runs from the last record to the first.
+	// Any spelling is accepted: the accessed index idx(i) = a*i + l*len(jumps) + c of the loop variable i must start
+	// at len(jumps)-1, go down by one per iteration, and the loop must continue exactly while idx >= 0.
 	var loopPhi *ssa.Phi
+	var curIdx ssa.Value
+	isLenJumps := func(v ssa.Value) bool {
+		c, ok := v.(*ssa.Call)
+		if !ok {
+			return false
+		}
+		if bi, ok := c.Call.Value.(*ssa.Builtin); !ok || bi.Name() != "len" {
+			return false
+		}
+		return strings.HasSuffix(res.Of(c.Call.Args[0], nil, c).String(), ".jumps")
+	}
 	for _, b := range asm.Blocks {
 		for _, in := range b.Instrs {
-			ph, ok := in.(*ssa.Phi)
-			if !ok || len(ph.Edges) != 2 {
+			iaddr, ok := in.(*ssa.IndexAddr)
+			if !ok || !strings.HasSuffix(res.Of(iaddr.X, nil, iaddr).String(), ".jumps") {
 				continue
 			}
-			if bt, ok := ph.Type().Underlying().(*types.Basic); !ok || bt.Kind() != types.Int {
-				continue
-			}
-			// used as index into p.jumps
-			for _, ref := range *ph.Referrers() {
-				if iaddr, ok := ref.(*ssa.IndexAddr); ok {
-					if o := res.Of(iaddr.X, nil, iaddr); strings.HasSuffix(o.String(), ".jumps") {
-						loopPhi = ph
-					}
-				}
+			if ph := findIntPhi(iaddr.Index, 0); ph != nil && loopPhi == nil {
+				loopPhi, curIdx = ph, iaddr.Index
 			}
 		}
 	}
@@ -733,38 +783,46 @@ func checkPatcherDiscipline(e *Env, p *load.Program) {
 		r.Bad("E2.order", "Program.Assemble/back-to-front", p.Pos(asm.Pos()),
 			"the jump list is not resolved by an index loop running from the last record to the first: with bridges inserted behind the current jump, a front-to-back order moves the targets of jumps that were finalised earlier")
 	} else {
-		desc := false
-		initOK := false
+		idx := affineOf(curIdx, loopPhi, isLenJumps, 0)
+		var first, step affine
+		H := loopPhi.Block()
 		for i, ed := range loopPhi.Edges {
-			pred := loopPhi.Block().Preds[i]
-			if flow.Dominates(loopPhi.Block(), pred) {
-				// back edge: phi - 1
-				if bo, ok := ed.(*ssa.BinOp); ok && bo.Op == token.SUB && bo.X == ssa.Value(loopPhi) {
-					if k, ok := flow.ConstInt(bo.Y); ok && k == 1 {
-						desc = true
-					}
-				}
+			if flow.Dominates(H, H.Preds[i]) {
+				step = affineOf(ed, loopPhi, isLenJumps, 0) // phi + s
 			} else {
-				// init: len(p.jumps) - 1
-				if bo, ok := ed.(*ssa.BinOp); ok && bo.Op == token.SUB {
-					if k, ok := flow.ConstInt(bo.Y); ok && k == 1 {
-						if o := res.Of(bo.X, nil, bo); o.Kind == origin.KLen && strings.HasSuffix(o.Args[0].String(), ".jumps") {
-							initOK = true
+				first = affineOf(ed, loopPhi, isLenJumps, 0) // no phi term
+			}
+		}
+		desc := idx.ok && step.ok && step.a == 1 && step.l == 0 && idx.a*step.c == -1
+		// idx at the first iteration: substitute the initial value for the loop variable
+		initOK := idx.ok && first.ok && first.a == 0 && idx.a*first.l+idx.l == 1 && idx.a*first.c+idx.c == -1
+		condOK := false
+		if ifi, ok := flow.LastIf(H); ok && idx.ok {
+			// F >= 0 is the condition for staying in the loop
+			if F, ok := stayCondition(ifi, H, loopPhi, isLenJumps); ok {
+				condOK = F == idx
+			}
+		}
+		r.Check(desc && initOK && condOK, "E2.order", "Program.Assemble/back-to-front", p.Pos(loopPhi.Pos()),
+			"the jump records are resolved at indices len(jumps)-1, len(jumps)-2, ..., 0: every jump is resolved, last first", fmt.Sprintf("the loop over the jump list does not visit the records len(jumps)-1 down to 0 (start=%v step=%v bound=%v)", initOK, desc, condOK))
+		// the jump list itself is not changed while it is being resolved
+		for _, f := range p.SrcFuncs(load.PkgRoot) {
+			if f != asm && !reachesFnFrom(asm, f) {
+				continue
+			}
+			if len(f.Params) == 0 {
+				continue
+			}
+			for _, b := range f.Blocks {
+				for _, in := range b.Instrs {
+					if st, ok := in.(*ssa.Store); ok {
+						if path, ok := storePath(st.Addr, f.Params[0]); ok && path == ".jumps" {
+							r.Bad("E2.order", load.FuncName(f)+"/jump-list-changed-during-resolution", p.Pos(st.Pos()), "the jump list is replaced while Program.Assemble iterates over it")
 						}
 					}
 				}
 			}
 		}
-		condOK := false
-		if ifi, ok := flow.LastIf(loopPhi.Block()); ok {
-			if bo, ok := ifi.Cond.(*ssa.BinOp); ok && bo.X == ssa.Value(loopPhi) && bo.Op == token.GEQ {
-				if k, ok := flow.ConstInt(bo.Y); ok && k == 0 {
-					condOK = true
-				}
-			}
-		}
-		r.Check(desc && initOK && condOK, "E2.order", "Program.Assemble/back-to-front", p.Pos(loopPhi.Pos()),
-			"for i := len(jumps)-1; i >= 0; i--: every jump is resolved, last first", fmt.Sprintf("the loop over the jump list is not `for i := len(jumps)-1; i >= 0; i--` (start=%v step=%v bound=%v)", initOK, desc, condOK))
 		// every mutator call in Assemble gets the loop's current element
 		nMut := 0
 		for _, c := range flow.Calls(asm) {
@@ -777,7 +835,7 @@ func checkPatcherDiscipline(e *Env, p *load.Program) {
 			for _, a := range call.Call.Args {
 				if isNamed(a.Type(), load.PkgRoot, "JumpIf") {
 					o := res.Of(a, nil, call)
-					good = o.Kind == origin.KElem && strings.HasSuffix(o.Args[0].String(), ".jumps") && o.Args[1].Val == ssa.Value(loopPhi)
+					good = o.Kind == origin.KElem && strings.HasSuffix(o.Args[0].String(), ".jumps") && (o.Args[1].Val == curIdx || affineOf(o.Args[1].Val, loopPhi, isLenJumps, 0) == affineOf(curIdx, loopPhi, isLenJumps, 0))
 				}
 			}
 			r.Check(good, "E2.order", "Program.Assemble/mutator-gets-current-jump/"+calleeName(call), p.Pos(call.Pos()), "the layout mutator works on the loop's current jump", "a layout mutator is called with something other than the loop's current jump record")
@@ -813,13 +871,14 @@ func checkPatcherDiscipline(e *Env, p *load.Program) {
 							o := res.Of(vals[0], nil, app)
 							// the record literal: field index = currentIndex()
 							io := fieldOfLiteral(res, vals[0], "index", app)
-							good = io != nil && io.Kind == origin.KCall && strings.HasSuffix(io.Name, "currentIndex")
+							// index = currentIndex() or Index(len(p.instructions)): the end of the list when the record is made
+							good = io != nil && ((io.Kind == origin.KCall && io.Callee != nil && io.Callee == ci) || isEndOfList(io))
 							_ = o
 						}
 					}
 					r.Check(good, "E2.order", load.FuncName(f)+"/record-appended-at-end", p.Pos(st.Pos()), "a jump record is appended with index = currentIndex(): the list is ascending", "a jump record is added other than by append with index = currentIndex(): the jump list may not be ascending")
 				case ".jumps[].index":
-					if load.FuncName(f) != "Program.updateIndices" {
+					if f != ui {
 						r.Bad("E2.order", load.FuncName(f)+"/index-rewritten", p.Pos(st.Pos()), "a jump record's index is rewritten outside updateIndices")
 					}
 				}
@@ -904,7 +963,7 @@ func checkPatcherDiscipline(e *Env, p *load.Program) {
 			}
 			// quiescence: the read is dominated by the exit of a loop whose continuation condition is "the list grew during the pass",
 			// or the value is 8-bit by construction (returned by resolveLabel after its own range handling and no later insertion)
-			q := quiescent(asm, call, rl, res)
+			q := quiescent(asm, call, rl, res, isMutator)
 			r.Check(q, "E2.final", key+"/after-quiescent-pass", p.Pos(call.Pos()),
 				"the skip is read after a pass of both label resolutions that inserted nothing (both targets within 8-bit reach)",
 				"the skip is converted to 8 bits without a preceding pass of both label resolutions that left the layout unchanged: a bridge inserted for the other branch can push this target out of reach (silent truncation)")
@@ -923,6 +982,95 @@ func checkPatcherDiscipline(e *Env, p *load.Program) {
 			}
 		}
 		r.Check(okInit, "E2.final", "Program.Assemble/patched-instruction-origin", p.Pos(jumpInst.Pos()), "the instruction being patched is the one at the jump's own index", "the instruction being patched is not read from the jump's own index")
+	}
+
+	// ---- stale positions: a position (Index value) obtained before a call that can insert an instruction is not used
+	// after it.  Exempt: the index of the jump being resolved (insertions happen behind it: E2.order anchor rule, and
+	// E2.cover: only cells >= index+1 are shifted), and slices of positions (updated in place by updateIndices).
+	nStale := 0
+	for _, f := range p.SrcFuncs(load.PkgRoot) {
+		if f == ia || (f != asm && !reachesFnFrom(asm, f)) {
+			continue
+		}
+		var muts []*ssa.Call
+		for _, c := range flow.Calls(f) {
+			if m, ok := c.(*ssa.Call); ok && (flow.Callee(m) == ia || isMutator(flow.Callee(m))) {
+				muts = append(muts, m)
+			}
+		}
+		if len(muts) == 0 {
+			continue
+		}
+		// position-valued SSA values: type Index, and integer arithmetic / conversions on them
+		pts := map[ssa.Value]ssa.Instruction{}
+		for _, b := range f.Blocks {
+			for _, in := range b.Instrs {
+				v, ok := in.(ssa.Value)
+				if !ok {
+					continue
+				}
+				if _, isPhi := in.(*ssa.Phi); isPhi {
+					continue
+				}
+				if isIndexType(v.Type()) {
+					pts[v] = in
+				}
+			}
+		}
+		for changed := true; changed; {
+			changed = false
+			for _, b := range f.Blocks {
+				for _, in := range b.Instrs {
+					v, ok := in.(ssa.Value)
+					if !ok || pts[v] != nil {
+						continue
+					}
+					switch x := in.(type) {
+					case *ssa.Convert:
+						if pts[x.X] != nil {
+							pts[v] = in
+							changed = true
+						}
+					case *ssa.BinOp:
+						if (x.Op == token.ADD || x.Op == token.SUB) && (pts[x.X] != nil) != (pts[x.Y] != nil) {
+							pts[v] = in // point +- vector (point - point is a distance, not a position)
+							changed = true
+						}
+					}
+				}
+			}
+		}
+		for v, def := range pts {
+			o := res.Of(v, nil, def).StripConv()
+			if o.Kind == origin.KField && o.Field.Name() == "index" && isNamed(o.Args[0].Type, load.PkgRoot, "JumpIf") {
+				continue // the current jump's own index
+			}
+			for _, m := range muts {
+				if def == ssa.Instruction(m) || !instrReachesNoRepeat(def, m, nil) {
+					continue
+				}
+				if ex, ok := def.(*ssa.Extract); ok && ex.Tuple == ssa.Value(m) {
+					continue
+				}
+				for _, u := range *v.Referrers() {
+					if _, isDbg := u.(*ssa.DebugRef); isDbg || u == ssa.Instruction(m) {
+						continue
+					}
+					if uv, ok := u.(ssa.Value); ok && pts[uv] != nil {
+						continue // a derived position: judged at its own uses
+					}
+					nStale++
+					if instrReachesNoRepeat(m, u, def) {
+						r.Bad("E2.stale", load.FuncName(f)+"/position-used-after-insertion/"+regName.ReplaceAllString(o.String(), "?"), p.Pos(u.Pos()),
+							fmt.Sprintf("the position %s is read before %s (which can insert an instruction and shift everything behind the jump) and used after it: it names the instruction in front of the intended one", o, calleeName(m)))
+					}
+				}
+			}
+		}
+	}
+	r.Count("uses of positions examined against insertions (E2.stale)", nStale)
+	if !r.HasBad("E2.stale") {
+		r.OK("E2.stale", "patcher/no-position-survives-an-insertion", p.Pos(asm.Pos()), "no position other than the current jump's own index is carried across a call that can insert an instruction")
 	}
 
 	// ---- bridge
@@ -951,7 +1099,7 @@ func checkPatcherDiscipline(e *Env, p *load.Program) {
 					good := so != nil
 					if good {
 						s := so.StripConv()
-						good = (s.Kind == origin.KCall && strings.HasSuffix(s.Name, "computeSkipN")) || (s.Kind == origin.KPhi && allComputeSkip(s)) || (s.Kind == origin.KUnknown && strings.HasPrefix(s.Name, "loop:"))
+						good = (s.Kind == origin.KCall && s.Callee == cs) || (s.Kind == origin.KPhi && allComputeSkip(s, cs)) || (s.Kind == origin.KUnknown && strings.HasPrefix(s.Name, "loop:"))
 					}
 					r.Check(good, "E2.bridge", "Program.resolveLabel/jump-bridge-skip", p.Pos(c.Pos()),
 						"a Jump bridge placed directly behind the jump skips exactly the pre-insertion distance (lands on the shifted destination)",
@@ -970,8 +1118,13 @@ func checkPatcherDiscipline(e *Env, p *load.Program) {
 							}
 							pred := ph.Block().Preds[i]
 							if ifi, ok := flow.LastIf(pred); ok {
-								if ex, ok := ifi.Cond.(*ssa.Extract); ok && ex.Index == 1 {
-									if ta, ok := ex.Tuple.(*ssa.TypeAssert); ok && ta.CommaOk && ta.X == ssa.Value(x) && isNamed(ta.AssertedType, "golang.org/x/net/bpf", "RetConstant") && pred.Succs[0] == ph.Block() {
+								if pol, ok := isRetPredicate(ifi.Cond, x, 0); ok && len(pred.Succs) == 2 {
+									// the edge taken when the destination is a return leads to the copy
+									succ := pred.Succs[1]
+									if pol {
+										succ = pred.Succs[0]
+									}
+									if succ == ph.Block() {
 										okRet = true
 									}
 								}
@@ -995,13 +1148,12 @@ func checkPatcherDiscipline(e *Env, p *load.Program) {
 					if !ok || !flow.InstrDominates(c, mu) {
 						continue
 					}
-					app := isAppend(mu.Value)
-					if app == nil {
-						continue
-					}
-					vals := appendedValuesOfFirst(app)
-					if len(vals) == 1 && vals[0] == ssa.Value(c) {
-						pre = true
+					// the stored candidate list is [bridge index] ++ (old candidates), however it is put together
+					pieces, ok := expandSlice(mu.Value, 0)
+					if ok && len(pieces) == 2 && pieces[0].elem && pieces[0].v == ssa.Value(c) && !pieces[1].elem {
+						if o := res.Of(pieces[1].v, nil, mu); strings.Contains(o.String(), ".labels[") {
+							pre = true
+						}
 					}
 				}
 			}
@@ -1032,10 +1184,10 @@ func checkPatcherDiscipline(e *Env, p *load.Program) {
 	}
 }
 
-func allComputeSkip(o *origin.O) bool {
+func allComputeSkip(o *origin.O, cs *ssa.Function) bool {
 	for _, a := range o.Args {
 		s := a.StripConv()
-		if s.Kind == origin.KCall && strings.HasSuffix(s.Name, "computeSkipN") {
+		if s.Kind == origin.KCall && s.Callee == cs {
 			continue
 		}
 		if s.Kind == origin.KUnknown && strings.HasPrefix(s.Name, "loop:") {
@@ -1130,46 +1282,350 @@ func instrReachesNoRepeat(from, to, avoid ssa.Instruction) bool {
 	return walk(from.Block(), flow.InstrIndex(from)+1)
 }
 
-// quiescent: the skip read `call` is dominated by the true edge of a loop-exit test whose loop-carried value is
-// `size == len(instructions)` with size read before resolveLabel(jump, trueLabel) and resolveLabel(jump, falseLabel).
-func quiescent(asm *ssa.Function, call *ssa.Call, rl *ssa.Function, res *origin.Resolver) bool {
+// quiescent: the skip read `call` is dominated by the fact `size == len(instructions)` (as a branch condition, or as the
+// loop-carried flag of the enclosing retry loop), with size read before resolveLabel(jump, trueLabel) and
+// resolveLabel(jump, falseLabel), and no layout mutation between the second length read and the skip read.
+func quiescent(asm *ssa.Function, call *ssa.Call, rl *ssa.Function, res *origin.Resolver, isMutator func(*ssa.Function) bool) bool {
 	if rl == nil {
 		return false
 	}
+	// equalities known to hold at the read
+	var eqs []*ssa.BinOp
 	for _, cd := range flow.DomConds(call.Block()) {
-		ph, ok := cd.V.(*ssa.Phi)
-		if !ok || !cd.Pol {
-			continue
-		}
-		for _, ed := range ph.Edges {
-			bo, ok := ed.(*ssa.BinOp)
-			if !ok || bo.Op != token.EQL {
-				continue
+		c := flow.Norm(cd)
+		switch x := c.V.(type) {
+		case *ssa.BinOp:
+			if (x.Op == token.EQL && c.Pol) || (x.Op == token.NEQ && !c.Pol) {
+				eqs = append(eqs, x)
 			}
-			lx := res.Of(bo.X, nil, bo)
-			ly := res.Of(bo.Y, nil, bo)
-			if lx.Kind != origin.KLen || ly.Kind != origin.KLen || !strings.HasSuffix(lx.Args[0].String(), ".instructions") || !strings.HasSuffix(ly.Args[0].String(), ".instructions") {
-				continue
-			}
-			// both label resolutions lie between the two length reads
-			first, _ := bo.X.(ssa.Instruction)
-			second, _ := bo.Y.(ssa.Instruction)
-			if first == nil || second == nil {
-				continue
-			}
-			labels := map[string]bool{}
-			for _, c := range callsToFn(asm, rl) {
-				if flow.InstrDominates(first, c) && flow.InstrDominates(c, second) {
-					lo := res.Of(c.Call.Args[len(c.Call.Args)-1], nil, c)
-					if lo.Kind == origin.KField {
-						labels[lo.Field.Name()] = true
+		case *ssa.Phi:
+			// a flag: every incoming value is the constant that keeps the loop going, or the equality itself
+			var cand []*ssa.BinOp
+			good := true
+			for _, ed := range x.Edges {
+				if k, ok := ed.(*ssa.Const); ok && k.Value != nil && k.Value.Kind() == constant.Bool {
+					if constant.BoolVal(k.Value) == c.Pol {
+						good = false // the flag can have the exit value without the equality having been tested
 					}
+					continue
 				}
+				bo, ok := ed.(*ssa.BinOp)
+				if ok && ((bo.Op == token.EQL && c.Pol) || (bo.Op == token.NEQ && !c.Pol)) {
+					cand = append(cand, bo)
+					continue
+				}
+				good = false
 			}
-			if labels["trueLabel"] && labels["falseLabel"] {
-				return true
+			if good {
+				eqs = append(eqs, cand...)
 			}
 		}
 	}
+	for _, bo := range eqs {
+		lx := res.Of(bo.X, nil, bo)
+		ly := res.Of(bo.Y, nil, bo)
+		if lx.Kind != origin.KLen || ly.Kind != origin.KLen || !strings.HasSuffix(lx.Args[0].String(), ".instructions") || !strings.HasSuffix(ly.Args[0].String(), ".instructions") {
+			continue
+		}
+		// both label resolutions lie between the two length reads
+		first, _ := bo.X.(ssa.Instruction)
+		second, _ := bo.Y.(ssa.Instruction)
+		if first == nil || second == nil {
+			continue
+		}
+		if flow.InstrDominates(second, first) {
+			first, second = second, first
+		}
+		labels := map[string]bool{}
+		for _, c := range callsToFn(asm, rl) {
+			if flow.InstrDominates(first, c) && flow.InstrDominates(c, second) {
+				lo := res.Of(c.Call.Args[len(c.Call.Args)-1], nil, c)
+				if lo.Kind == origin.KField {
+					labels[lo.Field.Name()] = true
+				}
+			}
+		}
+		if !labels["trueLabel"] || !labels["falseLabel"] {
+			continue
+		}
+		// nothing changes the layout between the second length read and the skip read
+		clean := true
+		for _, c2 := range flow.Calls(asm) {
+			m, ok := c2.(*ssa.Call)
+			if !ok || m == call || !isMutator(flow.Callee(m)) {
+				continue
+			}
+			if instrReachesNoRepeat(second, m, second) && instrReachesNoRepeat(m, call, second) {
+				clean = false
+			}
+		}
+		if clean {
+			return true
+		}
+	}
 	return false
+}
+
+var regName = regexp.MustCompile(`\\?loop:t[0-9]+|\\bt[0-9]+\\b`)
+
+// affine is a*i + l*L + c over a loop variable i and a length L.
+type affine struct {
+	a, l, c int64
+	ok      bool
+}
+
+func affineOf(v ssa.Value, phi *ssa.Phi, isL func(ssa.Value) bool, depth int) affine {
+	if depth > 8 || v == nil {
+		return affine{}
+	}
+	if v == ssa.Value(phi) {
+		return affine{a: 1, ok: true}
+	}
+	if isL(v) {
+		return affine{l: 1, ok: true}
+	}
+	switch x := v.(type) {
+	case *ssa.Const:
+		if k, ok := flow.ConstInt(x); ok {
+			return affine{c: k, ok: true}
+		}
+	case *ssa.Convert:
+		return affineOf(x.X, phi, isL, depth+1)
+	case *ssa.BinOp:
+		a, b := affineOf(x.X, phi, isL, depth+1), affineOf(x.Y, phi, isL, depth+1)
+		if !a.ok || !b.ok {
+			return affine{}
+		}
+		switch x.Op {
+		case token.ADD:
+			return affine{a.a + b.a, a.l + b.l, a.c + b.c, true}
+		case token.SUB:
+			return affine{a.a - b.a, a.l - b.l, a.c - b.c, true}
+		}
+	}
+	return affine{}
+}
+
+// findIntPhi: the loop variable an index expression is built from.
+func findIntPhi(v ssa.Value, depth int) *ssa.Phi {
+	if depth > 8 {
+		return nil
+	}
+	switch x := v.(type) {
+	case *ssa.Phi:
+		if bt, ok := x.Type().Underlying().(*types.Basic); ok && bt.Info()&types.IsInteger != 0 {
+			return x
+		}
+	case *ssa.Convert:
+		return findIntPhi(x.X, depth+1)
+	case *ssa.BinOp:
+		if ph := findIntPhi(x.X, depth+1); ph != nil {
+			return ph
+		}
+		return findIntPhi(x.Y, depth+1)
+	}
+	return nil
+}
+
+// stayCondition normalises the loop test in header H to F >= 0 (F affine), where F >= 0 means "another iteration".
+func stayCondition(ifi *ssa.If, H *ssa.BasicBlock, phi *ssa.Phi, isL func(ssa.Value) bool) (affine, bool) {
+	c := flow.Norm(flow.Cond{V: ifi.Cond, Pol: true})
+	bo, ok := c.V.(*ssa.BinOp)
+	if !ok {
+		return affine{}, false
+	}
+	x, y := affineOf(bo.X, phi, isL, 0), affineOf(bo.Y, phi, isL, 0)
+	if !x.ok || !y.ok {
+		return affine{}, false
+	}
+	// which successor stays in the loop: the one from which the header is reachable again
+	g := flow.G(H.Parent())
+	stayOnTrue := reachesBlock(g, H.Succs[0], H)
+	stayOnFalse := reachesBlock(g, H.Succs[1], H)
+	if stayOnTrue == stayOnFalse {
+		return affine{}, false
+	}
+	pol := c.Pol == stayOnTrue // the comparison itself must be true to stay
+	sub := func(a, b affine, k int64) affine { return affine{a.a - b.a, a.l - b.l, a.c - b.c + k, true} }
+	op := bo.Op
+	if !pol {
+		switch op { // negate
+		case token.LSS:
+			op = token.GEQ
+		case token.LEQ:
+			op = token.GTR
+		case token.GTR:
+			op = token.LEQ
+		case token.GEQ:
+			op = token.LSS
+		default:
+			return affine{}, false
+		}
+	}
+	switch op {
+	case token.GEQ: // x >= y  <=>  x - y >= 0
+		return sub(x, y, 0), true
+	case token.GTR: // x > y  <=>  x - y - 1 >= 0
+		return sub(x, y, -1), true
+	case token.LEQ: // x <= y  <=>  y - x >= 0
+		return sub(y, x, 0), true
+	case token.LSS:
+		return sub(y, x, -1), true
+	}
+	return affine{}, false
+}
+
+func reachesBlock(g *flow.Graph, from, to *ssa.BasicBlock) bool {
+	seen := map[*ssa.BasicBlock]bool{}
+	var walk func(b *ssa.BasicBlock) bool
+	walk = func(b *ssa.BasicBlock) bool {
+		if b == to {
+			return true
+		}
+		if seen[b] {
+			return false
+		}
+		seen[b] = true
+		for _, s := range g.Succs(b) {
+			if walk(s) {
+				return true
+			}
+		}
+		return false
+	}
+	return walk(from)
+}
+
+// reachesFnFrom: f is reachable from root over static calls.
+func reachesFnFrom(root, f *ssa.Function) bool { return reachesFn(root, f, map[*ssa.Function]bool{}) }
+
+// isRetPredicate: cond tests whether the instruction value x is a bpf.RetConstant (comma-ok assertion, possibly negated,
+// possibly inside a helper of the module that does nothing else).  pol: cond true means "is a return".
+func isRetPredicate(cond ssa.Value, x ssa.Value, depth int) (pol bool, ok bool) {
+	if depth > 3 {
+		return false, false
+	}
+	c := flow.Norm(flow.Cond{V: cond, Pol: true})
+	switch v := c.V.(type) {
+	case *ssa.Extract:
+		if v.Index == 1 {
+			if ta, ok := v.Tuple.(*ssa.TypeAssert); ok && ta.CommaOk && sameInstrValue(ta.X, x) && isNamed(ta.AssertedType, "golang.org/x/net/bpf", "RetConstant") {
+				return c.Pol, true
+			}
+		}
+	case *ssa.Call:
+		cal := v.Call.StaticCallee()
+		if cal == nil || len(cal.Blocks) == 0 || len(cal.Params) != 1 || len(v.Call.Args) != 1 || !sameInstrValue(v.Call.Args[0], x) {
+			return false, false
+		}
+		// every return of the helper is the predicate on its parameter, and the helper has no other effect
+		for _, b := range cal.Blocks {
+			for _, in := range b.Instrs {
+				switch in.(type) {
+				case *ssa.Store, *ssa.MapUpdate, *ssa.Go, *ssa.Defer, *ssa.Send, *ssa.Panic:
+					return false, false
+				case *ssa.Call:
+					return false, false
+				}
+			}
+		}
+		var hp *bool
+		for _, ret := range flow.Returns(cal) {
+			rs := flow.RetResults(ret)
+			if len(rs) != 1 {
+				return false, false
+			}
+			p2, ok := isRetPredicate(rs[0], cal.Params[0], depth+1)
+			if !ok || (hp != nil && *hp != p2) {
+				return false, false
+			}
+			hp = &p2
+		}
+		if hp == nil {
+			return false, false
+		}
+		return *hp == c.Pol, true
+	}
+	return false, false
+}
+
+// sameInstrValue: the same SSA value, or two loads of the same local.
+func sameInstrValue(a, b ssa.Value) bool {
+	if a == b {
+		return true
+	}
+	return sameValue(a, b)
+}
+
+
+// isEndOfList: Index(len(p.instructions)).
+func isEndOfList(o *origin.O) bool {
+	o = o.StripConv()
+	return o.Kind == origin.KLen && len(o.Args) == 1 && strings.HasSuffix(o.Args[0].String(), ".instructions")
+}
+
+type slicePiece struct {
+	v    ssa.Value
+	elem bool // a single element (else: a whole slice value)
+}
+
+// expandSlice flattens a slice built by literals, make(T, 0, ...) and (nested) appends into its pieces.
+func expandSlice(v ssa.Value, depth int) ([]slicePiece, bool) {
+	if depth > 8 {
+		return nil, false
+	}
+	switch x := v.(type) {
+	case *ssa.MakeSlice:
+		if k, ok := flow.ConstInt(x.Len); ok && k == 0 {
+			return nil, true
+		}
+		return nil, false
+	case *ssa.Const:
+		if x.Value == nil {
+			return nil, true
+		}
+	case *ssa.Slice:
+		if al, ok := x.X.(*ssa.Alloc); ok && x.Low == nil && x.High == nil {
+			// a literal array sliced whole: its elements in index order
+			at, ok := al.Type().Underlying().(*types.Pointer).Elem().Underlying().(*types.Array)
+			if !ok {
+				return nil, false
+			}
+			out := make([]slicePiece, at.Len())
+			for _, ref := range *al.Referrers() {
+				ia, ok := ref.(*ssa.IndexAddr)
+				if !ok {
+					continue
+				}
+				k, ok := flow.ConstInt(ia.Index)
+				if !ok || k < 0 || k >= at.Len() {
+					return nil, false
+				}
+				for _, r2 := range *ia.Referrers() {
+					if st, ok := r2.(*ssa.Store); ok && st.Addr == ssa.Value(ia) {
+						out[k] = slicePiece{st.Val, true}
+					}
+				}
+			}
+			for _, pc := range out {
+				if pc.v == nil {
+					return nil, false
+				}
+			}
+			return out, true
+		}
+	case *ssa.Call:
+		if bi, ok := x.Call.Value.(*ssa.Builtin); ok && bi.Name() == "append" && len(x.Call.Args) == 2 {
+			a, ok := expandSlice(x.Call.Args[0], depth+1)
+			if !ok {
+				return nil, false
+			}
+			b, ok := expandSlice(x.Call.Args[1], depth+1)
+			if !ok {
+				return nil, false
+			}
+			return append(a, b...), true
+		}
+	}
+	return []slicePiece{{v, false}}, true
 }
